@@ -550,4 +550,7 @@ def run(ctx):
     ctx.guard(r10, ctx, prog, eng)
     from rules import C10_replay
     ctx.guard(C10_replay.r11, ctx, prog)
+    from tbxlint import shared
+    ctx.guard(shared.rule, ctx, prog, 'C10.R12', 'A6 no state shared between pipes behind their back: AsyncPipe, its Impl and Buffer keep no mutable static data member, function-local static or '
+              'file-scope variable (two pipes used at the same time would touch it each under its own mutexes)', ['tbox::util::AsyncPipe'], ['util/async_pipe.cpp'], {}, 8)
     return prog
